@@ -1,0 +1,41 @@
+//go:build verif
+
+// Contracts for govc (contract-based deductive verification); comments only.
+package v1alpha2
+
+// Helper contracts (derived from the generated code) for the deep copies used by the binder's
+// BindRequestReconciler.UpdateStatus (C12): the copy agrees with the source on every field the
+// status hand-off looks at, and shares no BackoffLimit cell with it.
+
+// vendored k8s.io/apimachinery code: assumed
+//@ func (*k8s.io/apimachinery/pkg/apis/meta/v1.ObjectMeta).DeepCopyInto
+//@   props C12 C11
+//@   trusted
+//@   note vendored apimachinery deep copy (maps, slices, time pointers): assumed to copy the scalar identity fields and to write only into out
+//@   requires in != nil && out != nil
+//@   modifies fields(out)
+//@   ensures out.Name == in.Name && out.Namespace == in.Namespace && out.ResourceVersion == in.ResourceVersion && out.UID == in.UID && out.Generation == in.Generation
+//@ end
+
+//@ func (*BindRequestSpec).DeepCopyInto
+//@   props C12 C11
+//@   trusted
+//@   note generated deep copy: element loop over ResourceClaimAllocations calls the vendored (*resource/v1.AllocationResult).DeepCopyInto (no body available, would havoc the heap)
+//@   requires in != nil && out != nil && in != out
+//@   modifies fields(out)
+//@   ensures out.PodName == in.PodName && out.SelectedNode == in.SelectedNode && out.ReceivedResourceType == in.ReceivedResourceType
+//@   ensures (out.BackoffLimit == nil) == (in.BackoffLimit == nil)
+//@   ensures in.BackoffLimit != nil ==> *out.BackoffLimit == *in.BackoffLimit && fresh(out.BackoffLimit)
+//@   ensures len(out.SelectedGPUGroups) == len(in.SelectedGPUGroups)
+//@ end
+
+//@ func (*BindRequest).DeepCopyInto
+//@   props C12 C11
+//@   requires in != nil && out != nil && in != out
+//@   modifies fields(out)
+//@   ensures out.Status.Phase == in.Status.Phase && out.Status.Reason == in.Status.Reason && out.Status.FailedAttempts == in.Status.FailedAttempts
+//@   ensures out.Name == in.Name && out.Namespace == in.Namespace && out.ResourceVersion == in.ResourceVersion
+//@   ensures out.Spec.PodName == in.Spec.PodName && out.Spec.SelectedNode == in.Spec.SelectedNode
+//@   ensures (out.Spec.BackoffLimit == nil) == (in.Spec.BackoffLimit == nil)
+//@   ensures in.Spec.BackoffLimit != nil ==> *out.Spec.BackoffLimit == *in.Spec.BackoffLimit && fresh(out.Spec.BackoffLimit)
+//@ end
